@@ -26,6 +26,14 @@ at random instants while a reader polls the target.
 
 Correspondence (T2): the recorded effect trace, the target content after every step (and the temporary file's content
 when the harness controls the buffering), the outcome and the final directory equal the model's (`c18 run`, `c18 two`).
+
+HISTORIES (`hist_*`): the identity of the caller changes AFTER earlier successful writes.  A helper process (actor 1) writes,
+then forks / starts threads (children fork again; threads are created before and after a fork; a thread that has written
+forks), and then several of these actors — in DIFFERENT processes — write the same target.  Every actor parks before each
+effect step (the same `Run.step` hook) and reports over a pipe; the harness grants one step at a time according to the
+schedule and snapshots target and directory after each.  Oracle: at every snapshot the target holds the content before the
+calls or exactly one writer's complete exposition; concurrently active writers name distinct temporary files; nobody raises;
+nothing is left behind.  Two-writer races are also sent to the model (`c18 two`).
 """
 import io
 import itertools
@@ -73,21 +81,23 @@ def canon_class(e):
 class Env:
     """one scratch directory, one target, the patched view of `open`/`os` for prometheus_client.exposition"""
 
-    def __init__(self, old, others=None, pathform='abs'):
-        self.root = tempfile.mkdtemp(prefix='pv-c18-')
+    def __init__(self, old, others=None, pathform='abs', attach=None):
+        # attach=<root>: a helper PROCESS attaches to the scratch tree the harness has already set up (nothing is created or removed)
+        self.attached = attach is not None
+        self.root = attach if self.attached else tempfile.mkdtemp(prefix='pv-c18-')
         self.dir = real_os.path.join(self.root, 'sub') if pathform == 'sub' else self.root
-        if pathform == 'sub':
+        if pathform == 'sub' and not self.attached:
             real_os.mkdir(self.dir)
         self.target = real_os.path.join(self.dir, 'metrics.prom')
         # how the caller names the target, and the working directory for the call (None = leave it alone)
         self.callpath, self.cwd = {'abs': (self.target, None), 'bare': ('metrics.prom', self.dir),
                                    'dot': ('./metrics.prom', self.dir), 'sub': ('sub/metrics.prom', self.root)}[pathform]
         self.others = dict(others or {'unrelated.prom': b'keep me\n'})
-        for n, c in self.others.items():
+        for n, c in ({} if self.attached else self.others).items():
             with real_open(real_os.path.join(self.dir, n), 'wb') as f:
                 f.write(c)
         self.old = old
-        if old is not None:
+        if old is not None and not self.attached:
             with real_open(self.target, 'wb') as f:
                 f.write(old)
         self.local = threading.local()
@@ -97,7 +107,8 @@ class Env:
         self.touched = set()        # base names of the paths the code under test named in a wrapped call
 
     def close(self):
-        shutil.rmtree(self.root, ignore_errors=True)
+        if not self.attached:
+            shutil.rmtree(self.root, ignore_errors=True)
 
     def run_of_thread(self):
         return getattr(self.local, 'run', None)
@@ -117,6 +128,9 @@ class Env:
         if real_os.path.dirname(p) != self.dir:
             return None
         self.touched.add(real_os.path.basename(p))
+        run = self.run_of_thread()
+        if run is not None:
+            run.named.add(real_os.path.basename(p))
         if p == self.target:
             return 'target'
         if p.startswith(self.target + '.'):
@@ -154,6 +168,7 @@ class Run:
         self.tmp_expected = None
         self.fds = {}               # raw file descriptors the call holds on scratch paths -> which path
         self.short_active = False   # a raw write issued during the current step is to be cut short
+        self.named = set()          # base names of the scratch paths THIS call named (its temporary file among them)
         self.natural_failed = False # a step failed on its own: under the single-fault rule the injected fault is then disarmed
 
     def snap(self, kind, pathcls, faulted):
@@ -754,6 +769,8 @@ def oracle_single(ctx, case, obs):
 
 
 def describe(case):
+    if case.get('kind') == 'hist':
+        return describe_history(case)
     if case.get('kind') == 'two':
         return '%d writers, registries %s, previous target %s, schedule %s' % (
             len(case['regs']), ' / '.join(str(r) for r in case['regs']), 'absent' if case['old'] is None else '%d bytes' % (len(case['old']) // 2), case['schedule'])
@@ -1248,6 +1265,501 @@ def fork_trials(ctx, olds=(None, b'# previous complete content\nold_metric 1.0\n
     ctx.extra['fork_two_processes'] = obs_all
 
 
+# ------------------------------------------------------------------------------------------------ histories: identity changes AFTER writes
+# A HISTORY is a list of operations on a tree of ACTORS (actor = one thread of one process; actor 1 = the main thread of a
+# fresh process that has imported the library):
+#     ['write', a, r]                     actor a calls write_to_textfile(target, registry r), uninterrupted
+#     ['fork', a, b]                      actor a calls os.fork(); the child's (only) thread is actor b
+#     ['thread', a, b]                    actor a starts a new thread, actor b
+#     ['race', [[a, r], [b, r'], …], s]   the listed actors call write_to_textfile on the SAME target concurrently; the schedule s
+#                                         (a string of actor digits) says whose next effect step runs, exactly like the two-thread runs
+# Every actor — whichever process it lives in — parks before each instrumented effect step (same `Run.step` hook as the
+# thread scheduler) and reports over a pipe; the harness grants one step at a time and snapshots target and directory itself.
+HIST_HELPER = r'''
+import json, os, select, sys, threading
+harness, repo, root, ev_w = sys.argv[1], sys.argv[2], sys.argv[3], int(sys.argv[4])
+cmd_r = [None] + [int(x) for x in sys.argv[5].split(',')]
+specs = json.loads(sys.argv[6])
+sys.path.insert(0, harness)
+sys.path.insert(0, repo)
+from props import c18
+from prometheus_client import exposition        # the library is imported once, by the first process
+
+O = c18.ORIG
+env = c18.Env(None, attach=root)
+regs = [c18.build_registry(env, [tuple(x) for x in sp])[0] for sp in specs]
+
+
+def send(d):
+    O['write'](ev_w, (json.dumps(d) + '\n').encode())
+
+
+def read1(aid):
+    r, _, _ = select.select([cmd_r[aid]], [], [], 40.0)
+    b = os.read(cmd_r[aid], 1) if r else b''
+    if not b:
+        os._exit(3)                              # the harness went away
+    return b
+
+
+def readline(aid):
+    out = b''
+    while True:
+        b = read1(aid)
+        if b == b'\n':
+            return out.decode()
+        out += b
+
+
+def last_step(run):
+    if len(run.steps) > run.reported:
+        run.reported = len(run.steps)
+        s = run.steps[-1]
+        return [s['kind'], s['path'], bool(s['faulted'])]
+    return None
+
+
+class PipeSched:
+    def yield_point(self, who):
+        send({'a': who, 'ev': 'park', 'done': last_step(env.run_of_thread())})
+        read1(who)
+
+
+env.sched = PipeSched()
+
+
+def do_write(aid, r):
+    run = c18.Run(env, aid, None, None, False)
+    run.reported = 0
+    env.local.run = run
+    raised = None
+    try:
+        exposition.write_to_textfile(env.target, regs[r])
+    except BaseException as e:      # noqa
+        raised = e
+    finally:
+        env.local.run = None
+    send({'a': aid, 'ev': 'end', 'done': last_step(run), 'raised': None if raised is None else '%s: %s' % (type(raised).__name__, raised),
+          'named': sorted(run.named)})
+
+
+def hello(aid):
+    send({'a': aid, 'ev': 'hello', 'pid': os.getpid(), 'tid': threading.get_ident(),
+          'main': threading.current_thread() is threading.main_thread()})
+
+
+def actor(aid, is_process):
+    hello(aid)
+    children, threads = [], []
+    while True:
+        op = readline(aid).split()
+        if op[0] == 'W':
+            do_write(aid, int(op[1]))
+        elif op[0] == 'F':
+            pid = os.fork()
+            if pid == 0:
+                aid, is_process, children, threads = int(op[1]), True, [], []
+                hello(aid)
+                continue
+            children.append(pid)
+            send({'a': aid, 'ev': 'forked', 'child': pid})
+        elif op[0] == 'T':
+            t = threading.Thread(target=actor, args=(int(op[1]), False), daemon=True)
+            threads.append(t)
+            t.start()
+            send({'a': aid, 'ev': 'spawned'})
+        elif op[0] == 'X':
+            break
+    for t in threads:
+        t.join(10)
+    for pid in children:
+        try:
+            os.waitpid(pid, 0)
+        except OSError:
+            pass
+    if is_process:
+        os._exit(0)
+
+
+with c18.Patched(env):
+    actor(1, True)
+'''
+
+HARNESS_DIR = real_os.path.dirname(real_os.path.dirname(real_os.path.abspath(__file__)))
+
+
+class HistDriver:
+    """the harness end of the pipes of one history run"""
+
+    def __init__(self, env, specs, nact, script):
+        self.ev_r, ev_w = real_os.pipe()
+        cmds = [real_os.pipe() for _ in range(nact)]
+        self.cmd_w = [None] + [w for _, w in cmds]
+        self.err = tempfile.TemporaryFile()
+        child_fds = [ev_w] + [r for r, _ in cmds]
+        try:
+            self.p = subprocess.Popen([sys.executable, '-W', 'ignore', script, HARNESS_DIR, lib.REPO, env.root, str(ev_w), ','.join(str(r) for r, _ in cmds),
+                                       json.dumps(specs)], pass_fds=child_fds, stdin=subprocess.DEVNULL, stdout=subprocess.DEVNULL,
+                                      stderr=self.err, start_new_session=True)
+        finally:
+            for fd in child_fds:
+                real_os.close(fd)
+        self.buf = b''
+
+    def send(self, a, data):
+        real_os.write(self.cmd_w[a], data)
+
+    def recv(self):
+        import select
+        while b'\n' not in self.buf:
+            r, _, _ = select.select([self.ev_r], [], [], 30.0)
+            chunk = real_os.read(self.ev_r, 65536) if r else b''
+            if not chunk:
+                self.err.seek(0)
+                raise lib.Infra('history helper %s: %s' % ('timed out' if not r else 'died', self.err.read().decode('utf-8', 'replace')[-600:]))
+            self.buf += chunk
+        line, self.buf = self.buf.split(b'\n', 1)
+        return json.loads(line.decode())
+
+    def expect(self, wanted):
+        """wait for one event of each (actor, kind) in `wanted`, in any order"""
+        got = {}
+        wanted = set(wanted)
+        while wanted:
+            ev = self.recv()
+            k = (ev['a'], ev['ev'])
+            if k not in wanted:
+                raise lib.Infra('history helper: unexpected event %s (waiting for %s)' % (ev, sorted(wanted)))
+            wanted.discard(k)
+            got[k] = ev
+        return got
+
+    def close(self):
+        try:
+            try:
+                self.p.wait(timeout=10)
+            except subprocess.TimeoutExpired:
+                pass
+            try:
+                real_os.killpg(self.p.pid, signal.SIGKILL)      # whatever is left of the process tree
+            except OSError:
+                pass
+            self.p.wait()
+        finally:
+            for fd in [self.ev_r] + self.cmd_w[1:]:
+                try:
+                    real_os.close(fd)
+                except OSError:
+                    pass
+            self.err.close()
+
+
+def hist_actors(history):
+    ids = {1}
+    for op in history:
+        if op[0] in ('fork', 'thread'):
+            ids.add(op[2])
+    return sorted(ids)
+
+
+def run_history(case, script):
+    old = unhex(case['old'])
+    env = Env(old)
+    drv = None
+    try:
+        specs = [[tuple(x) for x in r] for r in case['regs']]
+        news, partss = [], []
+        for sp in specs:
+            n, p = expected_exposition(env, sp)
+            news.append(n); partss.append(p)
+        ids = hist_actors(case['history'])
+        initial_listing = env.listing()
+        drv = HistDriver(env, case['regs'], max(ids), script)
+        actors = {1: drv.expect([(1, 'hello')])[(1, 'hello')]}
+        actors[1]['origin'] = 'the main thread of a fresh process that has imported the library'
+        blocks = []
+        order = [1]
+        for op in case['history']:
+            if op[0] == 'fork':
+                a, b = op[1], op[2]
+                drv.send(a, b'F %d\n' % b)
+                got = drv.expect([(a, 'forked'), (b, 'hello')])
+                actors[b] = got[(b, 'hello')]
+                actors[b]['origin'] = 'the only thread of the process forked by actor %d' % a
+                order.append(b)
+                continue
+            if op[0] == 'thread':
+                a, b = op[1], op[2]
+                drv.send(a, b'T %d\n' % b)
+                got = drv.expect([(a, 'spawned'), (b, 'hello')])
+                actors[b] = got[(b, 'hello')]
+                actors[b]['origin'] = 'a new thread started by actor %d' % a
+                order.append(b)
+                continue
+            writers = [[op[1], op[2]]] if op[0] == 'write' else [list(w) for w in op[1]]
+            pending = list(op[2]) if op[0] == 'race' else []
+            blk = {'writers': writers, 'before': env.read(env.target), 'log': [], 'results': {}, 'named': {}, 'executed': ''}
+            done = {}
+            for a, r in writers:
+                drv.send(a, b'W %d\n' % r)
+                drv.expect([(a, 'park')])     # parked before its first effect step
+                done[a] = False
+            while not all(done.values()):
+                who = None
+                while pending:
+                    w = int(pending.pop(0))
+                    if w in done and not done[w]:
+                        who = w
+                        break
+                if who is None:
+                    who = next(a for a, _ in writers if not done[a])
+                blk['executed'] += str(who)
+                drv.send(who, b'g')
+                ev = drv.recv()
+                if ev['a'] != who or ev['ev'] not in ('park', 'end'):
+                    raise lib.Infra('history helper: unexpected event %s while actor %d runs' % (ev, who))
+                if ev.get('done'):
+                    k, pc, fl = ev['done']
+                    blk['log'].append({'who': who, 'kind': k, 'path': pc, 'faulted': fl, 'target': env.read(env.target), 'listing': env.listing()})
+                if ev['ev'] == 'end':
+                    done[who] = True
+                    blk['results'][who] = ev['raised']
+                    blk['named'][who] = ev['named']
+                    blk['log'].append({'who': who, 'kind': 'return' if ev['raised'] is None else 'raise', 'path': '-', 'faulted': False,
+                                       'target': env.read(env.target), 'listing': env.listing()})
+            blk['after'] = env.read(env.target)
+            blk['listing_after'] = env.listing()
+            blocks.append(blk)
+        for a in reversed(order):
+            drv.send(a, b'X\n')
+        return {'old': old, 'news': news, 'parts': partss, 'blocks': blocks, 'actors': actors, 'initial_listing': initial_listing,
+                'target': env.target, 'others': env.others,
+                'final_fs': {n: env.read(real_os.path.join(env.dir, n)) for n in env.listing()}}
+    finally:
+        if drv is not None:
+            drv.close()
+        env.close()
+
+
+def describe_history(case, obs=None):
+    def actor(a):
+        if obs is None or a not in obs['actors']:
+            return 'actor %d' % a
+        i = obs['actors'][a]
+        return 'actor %d (pid %s, thread ident %s)' % (a, i['pid'], i['tid'])
+    out = ['actor 1 = the main thread of a fresh process that has imported prometheus_client; target previously %s'
+           % ('absent' if case['old'] is None else '%d bytes' % (len(case['old']) // 2))]
+    for op in case['history']:
+        if op[0] == 'write':
+            out.append('%s calls write_to_textfile(target, registry %d %s) and returns' % (actor(op[1]), op[2], case['regs'][op[2]]))
+        elif op[0] == 'fork':
+            out.append('actor %d calls os.fork(): the child is %s' % (op[1], actor(op[2])))
+        elif op[0] == 'thread':
+            out.append('actor %d starts a new thread: %s' % (op[1], actor(op[2])))
+        else:
+            out.append('%s call write_to_textfile on the same target concurrently, effect steps interleaved in the order %s'
+                       % (' and '.join('%s (registry %d %s)' % (actor(a), r, case['regs'][r]) for a, r in op[1]), op[2] or '(first to last)'))
+    return '; THEN '.join(out)
+
+
+def mix_note(t, news):
+    """says what a content that is nobody's complete exposition is made of (in-place overwrite of an installed file)"""
+    if t is None:
+        return ''
+    for a, n in news.items():
+        for b, m in news.items():
+            if a != b and len(n) < len(t) == len(m) and t[:len(n)] == n and t[len(n):] == m[len(n):] and t != m:
+                return (' [bytes 0–%d are actor %d\'s exposition, bytes %d–%d the tail of actor %d\'s: actor %d wrote IN PLACE into the file '
+                        'actor %d had already renamed over the target]' % (len(n) - 1, a, len(n), len(t) - 1, b, a, b))
+    return ''
+
+
+def oracle_history(ctx, case, obs):
+    """the property's own oracle on a history: at every observation point the target holds the previous content or exactly one
+    writer's complete exposition; concurrently active writers use distinct temporary names; nobody raises (no fault is injected),
+    and a raising call would have to leave the target unchanged; nothing is left behind"""
+    fails = 0
+    base = real_os.path.basename(obs['target'])
+    story = describe_history(case, obs)
+
+    def fail(sig, what):
+        nonlocal fails
+        fails += 1
+        ctx.fail(sig, what + ' | history: ' + story, case)
+
+    def trace(blk, upto):
+        return ' → '.join('%d:%s%s' % (s['who'], s['kind'], '' if s['path'] == '-' else '(' + s['path'] + ')') for s in blk['log'][:upto + 1])
+
+    for bi, blk in enumerate(obs['blocks']):
+        news = {a: obs['news'][r] for a, r in blk['writers']}
+        allowed = [blk['before']] + list(news.values())
+        tmpn = {a: [n for n in blk['named'].get(a, []) if n.startswith(base + '.')] for a, _ in blk['writers']}
+        span = {}
+        for i, s in enumerate(blk['log']):
+            span.setdefault(s['who'], [i, i])[1] = i
+        shared = [(a, b, sorted(set(tmpn[a]) & set(tmpn[b]))) for a, _ in blk['writers'] for b, _ in blk['writers']
+                  if a < b and set(tmpn[a]) & set(tmpn[b]) and a in span and b in span and span[a][0] <= span[b][1] and span[b][0] <= span[a][1]]
+        names = '; '.join('actor %d wrote through the temporary name %s' % (a, ' / '.join(tmpn[a]) or '(none)') for a, _ in blk['writers'])
+        for i, s in enumerate(blk['log']):
+            if s['target'] not in allowed:
+                fail('C18:history-partial-target',
+                     'operation %d of the history: after step %d (actor %d: %s %s) a reader of the target sees %s%s — neither the content before these calls (%s) '
+                     'nor one writer\'s complete exposition (%s). Steps so far: %s. %s. Outcomes: %s'
+                     % (bi_op(case, bi), i, s['who'], s['kind'], s['path'], show(s['target']), mix_note(s['target'], news), show(blk['before']),
+                        ' / '.join('actor %d: %s' % (a, show(n)) for a, n in news.items()), trace(blk, i), names,
+                        ', '.join('actor %d %s' % (a, 'returned' if r is None else 'raised ' + r) for a, r in sorted(blk['results'].items()))))
+                break
+        for a, b, common in shared:
+            fail('C18:history-tmp-shared', 'operation %d of the history: the concurrently active writers actor %d (pid %s, thread ident %s) and actor %d (pid %s, thread ident %s) '
+                 'both use the temporary file %s — the name is not unique per concurrent writer (it does not reflect the CURRENT pid/thread of the caller)'
+                 % (bi_op(case, bi), a, obs['actors'][a]['pid'], obs['actors'][a]['tid'], b, obs['actors'][b]['pid'], obs['actors'][b]['tid'], common))
+        for a, r in sorted(blk['results'].items()):
+            if r is not None:
+                at = next((s for s in blk['log'] if s['who'] == a and s['kind'] == 'raise'), None)
+                fail('C18:history-raise', 'operation %d of the history: actor %d\'s call raised %s although no fault was injected; when it raised the target held %s '
+                     '(before the calls: %s). Steps: %s. %s' % (bi_op(case, bi), a, r, show(at['target']) if at else '?', show(blk['before']),
+                                                                trace(blk, len(blk['log'])), names))
+        returned = [news[a] for a, r in blk['results'].items() if r is None]
+        if len(returned) == len(blk['writers']) and blk['after'] not in returned:
+            fail('C18:history-final', 'operation %d of the history: all calls returned but the target holds %s, not one of the installed expositions'
+                 % (bi_op(case, bi), show(blk['after'])))
+        extra = [n for n in blk['listing_after'] if n not in obs['initial_listing'] and n != base]
+        if extra:
+            fail('C18:tmp-left', 'operation %d of the history: the calls are over and %s is left behind' % (bi_op(case, bi), extra))
+    for n, c in obs['others'].items():
+        if obs['final_fs'].get(n) != c:
+            fail('C18:other-file-touched', 'unrelated file %s changed' % n)
+    return fails
+
+
+def bi_op(case, bi):
+    """index (1-based) in the history of the bi-th write/race operation"""
+    k = -1
+    for i, op in enumerate(case['history']):
+        if op[0] in ('write', 'race'):
+            k += 1
+            if k == bi:
+                return i + 1
+    return 0
+
+
+def history_model_requests(case, obs):
+    """every two-writer race block as a `c18 two` request (model: two effect lists with DISTINCT temporary names T.1/T.2)"""
+    out = []
+    for blk in obs['blocks']:
+        if len(blk['writers']) != 2 or any(r is not None for r in blk['results'].values()):
+            continue
+        (a, ra), (b, rb) = blk['writers']
+        base = real_os.path.basename(obs['target'])
+        ta = [n for n in blk['named'].get(a, []) if n.startswith(base + '.')]
+        tb = [n for n in blk['named'].get(b, []) if n.startswith(base + '.')]
+        if len(ta) != 1 or len(tb) != 1:
+            continue
+        idx = {a: 1, b: 2}
+        log = [dict(s, who=idx[s['who']], tmp1=ta[0] in s['listing'], tmp2=tb[0] in s['listing']) for s in blk['log'] if s['kind'] not in ('return', 'raise')]
+        final_fs = {n: (obs['final_fs'].get(n) if n != base else blk['after']) for n in blk['listing_after']}
+        o2 = {'old': blk['before'], 'parts': [obs['parts'][ra], obs['parts'][rb]], 'others': obs['others'], 'log': log, 'target': obs['target'],
+              'tmpnames': {1: ta[0], 2: tb[0]}, 'same_tmp': ta[0] == tb[0], 'final_fs': final_fs,
+              'executed': ''.join(str(idx[int(c)]) for c in blk['executed'])}
+        c2 = {'kind': 'two', 'regs': [case['regs'][ra], case['regs'][rb]], 'old': None if blk['before'] is None else blk['before'].hex(),
+              'schedule': o2['executed'], 'faults': [None, None], 'from_history': case}
+        out.append((c2, o2))
+    return out
+
+
+HR_SMALL, HR_BIG, HR_MID = [[1, 0]], [[3, 5], [2, 1]], [[2, 3]]
+
+
+def nested(outer, inner, k, n_outer=6, n_inner=6):
+    """outer performs k steps, then inner its whole call, then outer the rest"""
+    return str(outer) * k + str(inner) * (n_inner + 2) + str(outer) * (n_outer + 2)
+
+
+def hist_cases(ctx, wide):
+    """corpus first: the process identity changes AFTER earlier successful writes"""
+    rng = ctx.rng
+    regs = [HR_SMALL, HR_BIG, HR_MID]
+    old = OLDS[1].hex()
+
+    def case(history, o=old):
+        return {'kind': 'hist', 'regs': regs, 'old': o, 'history': history}
+    # write; fork; parent and child race — the child's whole call inside the parent's, cut after the parent's open / its collector
+    yield case([['write', 1, 0], ['fork', 1, 2], ['race', [[1, 0], [2, 1]], nested(1, 2, 1)]])
+    yield case([['write', 1, 1], ['fork', 1, 2], ['race', [[1, 1], [2, 0]], nested(2, 1, 2)]], None)
+    # … grandchild: the child has written too before it forks
+    yield case([['write', 1, 0], ['fork', 1, 2], ['write', 2, 2], ['fork', 2, 3], ['race', [[2, 0], [3, 1]], nested(2, 3, 1)],
+                ['race', [[1, 0], [2, 2], [3, 1]], '123' + nested(1, 3, 1)]])
+    # a thread that has written forks: the child's only thread inherits that thread's ident
+    yield case([['thread', 1, 2], ['write', 2, 0], ['fork', 2, 3], ['race', [[2, 0], [3, 1]], nested(2, 3, 1)]])
+    # thread created BEFORE the fork (and written), one created AFTER it in the child; everybody races
+    yield case([['write', 1, 0], ['thread', 1, 2], ['write', 2, 2], ['fork', 1, 3], ['thread', 3, 4],
+                ['race', [[1, 0], [2, 2], [3, 1], [4, 1]], '1234' + nested(1, 3, 0) + nested(2, 4, 1)]])
+    # control: fork BEFORE any write; and sequential, non-overlapping calls after the fork
+    yield case([['fork', 1, 2], ['race', [[1, 0], [2, 1]], nested(1, 2, 1)]])
+    yield case([['write', 1, 0], ['fork', 1, 2], ['write', 2, 1], ['write', 1, 0], ['write', 2, 2]])
+    n = 120 if ctx.tier == 'thorough' else 10 if wide else 3
+    for j in range(n):
+        # random history: a chain of forks / threads with writes in between, then one or two races with nested or random schedules
+        hist, alive, nxt = [], [1], 2
+        wrote = set()
+        for _ in range(rng.randrange(2, 6)):
+            a = rng.choice(alive)
+            k = rng.randrange(4)
+            if k == 0 or (k == 1 and a in wrote):
+                hist.append(['write', a, rng.randrange(3)]); wrote.add(a)
+            elif k in (1, 2) and nxt <= 5:
+                hist.append(['write', a, rng.randrange(3)]); wrote.add(a)
+                hist.append(['fork', a, nxt]); alive.append(nxt); nxt += 1
+            elif nxt <= 5:
+                hist.append(['thread', a, nxt]); alive.append(nxt); nxt += 1
+        if len(alive) < 2:
+            hist.append(['write', 1, 0]); hist.append(['fork', 1, nxt]); alive.append(nxt)
+        for _ in range(rng.randrange(1, 3)):
+            ws = rng.sample(alive, min(len(alive), rng.randrange(2, 4)))
+            wr = [[a, rng.randrange(3)] for a in ws]
+            if rng.random() < 0.6:
+                sch = nested(ws[0], ws[1], rng.randrange(0, 6))
+            else:
+                sch = [str(a) for a in ws for _ in range(8)]
+                rng.shuffle(sch)
+                sch = ''.join(sch)
+            hist.append(['race', wr, sch])
+        yield case(hist, rng.choice([None, old]))
+
+
+def hist_trials(ctx, cases, deadline=None):
+    d = tempfile.mkdtemp(prefix='pv-c18h-')
+    reqs, pend = [], []
+    try:
+        script = real_os.path.join(d, 'hist_helper.py')
+        with real_open(script, 'w') as f:
+            f.write(HIST_HELPER)
+        for case in cases:
+            if deadline is not None and time.time() > deadline:
+                ctx.count('cases-not-run-for-lack-of-time')
+                continue
+            obs = run_history(case, script)
+            oracle_history(ctx, case, obs)
+            kinds = [op[0] for op in case['history']]
+            shape = ('write-before-fork' if 'fork' in kinds and 'write' in kinds[:kinds.index('fork')] else 'fork-before-write' if 'fork' in kinds else 'threads-only')
+            ctx.case(('hist', json.dumps(case['history']), case['old']),
+                     {'history': describe_history(case, None), 'executed': [b['executed'] for b in obs['blocks']],
+                      'trace of the last operation': [(s['who'], s['kind'], s['path']) for s in obs['blocks'][-1]['log']] if obs['blocks'] else []})
+            ctx.count('history:' + shape)
+            ctx.count('history:actors=%d' % len(obs['actors']))
+            for c2, o2 in history_model_requests(case, obs):
+                reqs.append(request_two(c2, o2))
+                pend.append((c2, o2))
+    finally:
+        shutil.rmtree(d, ignore_errors=True)
+    replies = ctx.driver.run(reqs) if reqs else []
+    if replies is None:
+        return
+    for (c2, o2), rep in zip(pend, replies):
+        ctx.count('history:two-writer race compared with the model')
+        compare_two(ctx, c2, o2, rep)
+
+
 # ------------------------------------------------------------------------------------------------ case generation
 STALE = b'stale temporary file of an earlier, killed call\n'
 REGS_QUICK = [
@@ -1453,7 +1965,10 @@ def run(ctx):
                 "os.name='nt' branch on a subset); every step is a cut point with a reader snapshot. Two writers: ALL C(12,6)=924 interleavings of two "
                 '6-step calls, plus random schedules of longer calls with one writer faulted. A case is non-trivial when it has a fault, a previous '
                 'target or a split write. Two PROCESSES: a helper that has imported the library forks, parent and child (equal thread idents) write the '
-                'same target overlapping between open and rename (temporary names must differ). Distinct by (registry, previous target, split, fault position/class/part) resp. (registries, executed order).')
+                'same target overlapping between open and rename (temporary names must differ). HISTORIES in which the identity of the caller changes AFTER earlier '
+                'successful writes: write; os.fork() / new thread (also from a thread, also grandchildren, threads created before and after the fork); then 2–4 of '
+                'these actors write the same target, every effect step of every process parked and granted by the harness (nested schedules: one whole call '
+                'inside another after k steps; random schedules), target and directory snapshotted after each step. Distinct by (registry, previous target, split, fault position/class/part) resp. (registries, executed order).')
     wide = bool(ctx.broken) or ctx.tier == 'thorough'
     regs = list(REGS_QUICK)
     if wide:
@@ -1473,10 +1988,13 @@ def run(ctx):
                                      '(the space of registries and contents itself is unbounded and is covered by the theorems, not enumerated)')
     t_mid = time.time()
     fork_trials(ctx)
+    t_fork0 = time.time()
+    hist_trials(ctx, hist_cases(ctx, wide), time.time() + 12 if quick else None)
+    ctx.extra['phase_s']['histories: writes, then fork/thread, then interleaved writers in several processes'] = round(time.time() - t_fork0, 1)
     t_fork = time.time()
     kill_trials(ctx, 150 if ctx.tier == 'thorough' else 3)
     ctx.extra['phase_s']['real code + model driver, single calls and two writers'] = round(t_mid - t_start, 1)
-    ctx.extra['phase_s']['two forked processes on one target'] = round(t_fork - t_mid, 1)
+    ctx.extra['phase_s']['two forked processes on one target'] = round(t_fork0 - t_mid, 1)
     ctx.extra['phase_s']['SIGKILL trials'] = round(time.time() - t_fork, 1)
     ctx.extra.setdefault('documented_limits', {})
     flush_deferred(ctx)
@@ -1489,9 +2007,11 @@ def flush_deferred(ctx):
 
 def replay(ctx, case):
     c = case.get('case', {})
-    print('REPLAY', describe(c) if c.get('kind') in ('single', 'two') else c)
+    print('REPLAY', describe(c) if c.get('kind') in ('single', 'two', 'hist') else c)
     if c.get('kind') == 'fork':
         fork_trials(ctx, olds=(unhex(c.get('old')),), sizes=tuple(c.get('sizes', (40, 5))))
+    elif c.get('kind') == 'hist':
+        hist_trials(ctx, [c])
     elif c.get('kind') == 'kill':
         kill_trials(ctx, max(50, int(c.get('trials', 50))), tuple(c.get('sizes', (400, 3000))))
     else:
